@@ -20,6 +20,7 @@ import DarkluaModel.Rules.AllocSteps
 import DarkluaModel.Rules.UnusedVariableHeap
 import DarkluaModel.Rules.UnusedVariableHeapV
 import DarkluaModel.Rules.UnusedVariableHeapV2
+import DarkluaModel.Rules.UnusedVariableHeapV3
 import DarkluaModel.Shared.VisitorSound.HeapV.VOracle
 import DarkluaModel.Rules.NilDeclarationHeap
 import DarkluaModel.Rules.NilDeclarationHeap2
@@ -827,6 +828,50 @@ theorem rule_refines_remove_unused_variable_partialV2_driver (api : EvalApi) (b 
   rule_refines_remove_unused_variable_partialV2 api b h _ Sem.HeapV.driverOracle_flat n externs
 
 example : Sem.HeapV.OracleFlat Shared.driverOracle := Sem.HeapV.driverOracle_flat
+
+/-- **Whole rule, fourth fragment** (`_partialV3`; after the fix of F25): the guarded version additionally performs the
+rule's replacement of an unused declaration whose single value is effectful for the evaluator but not a call
+(`local u = t.k` ↦ `do local _ = t.k end`; the declared names are not `_` and not referenced afterwards). New
+stage-4 leaf `Sem.HeapV.localToDo_sound`: both sides perform the same evaluation, the cells bound on either side
+are garbage. -/
+theorem rule_refines_remove_unused_variable_partialV3 (api : EvalApi) (b : Block)
+    (h : Rules.UnusedVariable.GuardedV3.applyG api b = Rules.UnusedVariable.apply api b)
+    {N : NumOps} (ρ : ExtOracle N) (hρ : Sem.HeapV.OracleFlat ρ) (n : Nat) (externs : List String) :
+    runProgram ρ n externs (Rules.UnusedVariable.apply api b) = runProgram ρ n externs b :=
+  Rules.UnusedVariable.GuardedV3.apply_refines_of_agree api b h ρ hρ n externs
+
+/-- that guarded rule is sound on EVERY program -/
+theorem rule_refines_remove_unused_variable_guardedV3 (api : EvalApi) (b : Block)
+    {N : NumOps} (ρ : ExtOracle N) (hρ : Sem.HeapV.OracleFlat ρ) (n : Nat) (externs : List String) :
+    runProgram ρ n externs (Rules.UnusedVariable.GuardedV3.applyG api b) = runProgram ρ n externs b :=
+  Rules.UnusedVariable.GuardedV3.applyG_refines api b ρ hρ n externs
+
+theorem rule_refines_remove_unused_variable_partialV3_driver (api : EvalApi) (b : Block)
+    (h : Rules.UnusedVariable.GuardedV3.applyG api b = Rules.UnusedVariable.apply api b) (n : Nat) (externs : List String) :
+    runProgram Shared.driverOracle n externs (Rules.UnusedVariable.apply api b) = runProgram Shared.driverOracle n externs b :=
+  rule_refines_remove_unused_variable_partialV3 api b h _ Sem.HeapV.driverOracle_flat n externs
+
+/-- the former F25 witness: `_ = 5; local t = { k = 1 }; local unused = t.k; return _` -/
+def unusedFieldSample : Block :=
+  .mk [.assign [.var "_"] [.num 5], .localAssign .loc [.mk "t" none] [.table [.named "k" (.num 1)]],
+       .localAssign .loc [.mk "unused" none] [.field (.var "t") "k"]] (some (.ret [.var "_"]))
+
+-- non-vacuity (and regression of F25): the declaration becomes `do local _ = t.k end`; inside the new `H`, outside
+-- the previous one
+example : Rules.UnusedVariable.GuardedV3.applyG (c08Api C08.toyN C08.toyE) unusedFieldSample =
+      Rules.UnusedVariable.apply (c08Api C08.toyN C08.toyE) unusedFieldSample ∧
+    Rules.UnusedVariable.apply (c08Api C08.toyN C08.toyE) unusedFieldSample =
+      .mk [.assign [.var "_"] [.num 5], .localAssign .loc [.mk "t" none] [.table [.named "k" (.num 1)]],
+           .doBlock (.mk [.localAssign .loc [.mk "_" none] [.field (.var "t") "k"]] none)] (some (.ret [.var "_"])) ∧
+    Rules.UnusedVariable.GuardedV2.applyG (c08Api C08.toyN C08.toyE) unusedFieldSample = unusedFieldSample := by
+  have h1 : Rules.UnusedVariable.GuardedV3.applyG (c08Api C08.toyN C08.toyE) unusedFieldSample =
+      .mk [.assign [.var "_"] [.num 5], .localAssign .loc [.mk "t" none] [.table [.named "k" (.num 1)]],
+           .doBlock (.mk [.localAssign .loc [.mk "_" none] [.field (.var "t") "k"]] none)] (some (.ret [.var "_"])) := by rfl
+  have h2 : Rules.UnusedVariable.apply (c08Api C08.toyN C08.toyE) unusedFieldSample =
+      .mk [.assign [.var "_"] [.num 5], .localAssign .loc [.mk "t" none] [.table [.named "k" (.num 1)]],
+           .doBlock (.mk [.localAssign .loc [.mk "_" none] [.field (.var "t") "k"]] none)] (some (.ret [.var "_"])) := by rfl
+  have h3 : Rules.UnusedVariable.GuardedV2.applyG (c08Api C08.toyN C08.toyE) unusedFieldSample = unusedFieldSample := by rfl
+  exact ⟨h1.trans h2.symm, h2, h3⟩
 
 /-! ### remove_nil_declaration — whole rule on a fragment (stage-3 lifting: equality up to cell renumbering) -/
 
